@@ -31,7 +31,8 @@ TRUSTED = ['A1 float == real; A2 object arrays == float arrays; dependency contr
            'C07 (Richardson), C13 (dea3), C08 (selection) are re-executed here, not assumed']
 ASSUMPTIONS = ['steps h0 * ratio**-k with h0 > 0 (generator contract, C10); g and the kernel polynomial of degree <= order+1']
 NOT_DECIDED = ['accuracy within a multiple of the error estimate on transcendental kernels and general analytic g']
-BOUNDED = ['array z0 of 2 elements, and one 2x3 non-contiguous view with a different limit at every point; NaN masks on 4 elements (all 16)']
+BOUNDED = ['limit-concrete: 97 concrete cases (three transcendental kernels x real / complex / array points x above / below x radial / spiral through Limit.__call__ and Limit.limit, an array mixing regular complex points with a singular one, Residue for p = 1..3 with explicit orders) in floating point, tolerance 1e-7 -- executed, not proved',
+           'array z0 of 2 elements, and one 2x3 non-contiguous view with a different limit at every point; NaN masks on 4 elements (all 16)']
 QUANTIFIED = 'z0, the coefficients c_j / of g (complex), the base step h0: universally quantified; order, pole order, path, method enumerated'
 
 
@@ -51,6 +52,7 @@ def groups(tier):
     for p in (1, 2, 3):
         out.append(('residue[p=%d]' % p, ('residue', p, tier)))
     out += [('nan-masks', ('nan',)), ('defaults', ('defaults',))]
+    out.append(('limit-concrete', ('lconc',)))
     return out
 
 
@@ -393,7 +395,15 @@ def run_defaults():
     return {}
 
 
+def run_lconc():
+    from ndvc.concrete import limit_cases
+    cnt, bad = limit_cases(mods()['lm'])
+    solve.fact('Limit/Residue-on-concrete-kernels:real-and-complex-points,scalar-and-array,__call__-and-limit,explicit-orders[%d cases]' % cnt, not bad, kind='bounded', note=str(bad[:2])[:400])
+    return {}
+
 def run_group(args):
+    if args[0] == 'lconc':
+        return run_lconc()
     if args[0] == 'limit':
         return run_limit(args[1], args[2], args[3])
     if args[0] == 'residue':
@@ -402,6 +412,8 @@ def run_group(args):
 
 
 def replay_case(ob):
+    if ob['name'].startswith('limit-concrete/'):
+        return dict(kind='C18.lconc')
     import re
     nm = ob['name']
     mm = re.search(r'limit\[(\w+),(\w+)\]/order=(\d+)', nm)
